@@ -21,7 +21,7 @@ from copsim.seams import RngRecorder, fingerprint, with_global_state
 PROPERTY = 'C12'
 LEVEL = 'exploration'
 TIERS = {
-    'quick': {'runs': 1200, 'wall': 75, 'batch': 6},
+    'quick': {'runs': 1600, 'wall': 150, 'batch': 6},
     'thorough': {'runs': 30000, 'wall': 840, 'batch': 6},
 }
 RULE = ('Each run = a fitted GaussianMultivariate (2-6 columns incl. constant and duplicated '
